@@ -140,7 +140,8 @@ RT_INV = CVC_LOOP_INV
 
 contract(TR + "query_ast_visitor.call_ResultTTree", props=["C03", "C05", "C09", "C02", "C18"],
          replay={"label_count": "ttree_label_mismatch", "tree_and_column_names_are_string_literals": "tree_and_column_names",
-                 "one_variable_per_column": "tree_and_column_names", "fill_then_clear_every_vector_column": "clear_after_fill"},
+                 "one_variable_per_column": "tree_and_column_names", "fill_then_clear_every_vector_column": "clear_after_fill",
+                 "one_fill_per_row_where_the_row_sequence_is_iterated": "fill_once_per_row"},
          params=dict(self=QV, node=RefOf("ast.Call"), args=TList(Ref)), result=REP,
          requires=CVC_REQUIRES + [("args", "all(a != None and live(a) for a in args)"),
                                   ("cursor", "len(cursor(self)) >= 1 and all(b != None and live(b) for b in cursor(self))"),
